@@ -1,6 +1,7 @@
 """property -> verification runs (unit, active clause groups, mode, features) and what the property owns"""
 
 U1 = "u1_sched"
+U3 = "u3_world"
 STAR_OWNERS = ("C04",)   # the shared shape / safety clauses (`*`) belong to these; for other properties a failing `*` clause is "undecided"
 
 PROPS = {
@@ -10,6 +11,12 @@ PROPS = {
                 undecided_sentences=["'A's run has completely ended before B begins to fetch' in time: layout order is proved, execution discipline trusted"]),
     "C03": dict(runs=[dict(unit=U1, groups=["bar"])], own_groups=["bar"],
                 undecided_sentences=["'has finished before ... begins' in time (trusted execution discipline)"]),
+    "C08": dict(runs=[dict(unit=U3, groups=["brw"], mode="P")], own_groups=["brw"],
+                undecided_sentences=["the three-state discipline of one cell, its thread-safety and release on drop / unwind are atomic_refcell's and Rust's drop glue (dependency / language, trusted)",
+                                     "multi-threaded histories are not explored"]),
+    "C09": dict(runs=[dict(unit=U3, groups=["typed"], mode="P"), dict(unit=U3, groups=["typed"], mode="T")], own_groups=["typed", "P", "T"], owns_shared=True,
+                undecided_sentences=["'every value is dropped exactly once': ownership / drop glue (trusted)", "entry / or_insert(_with) / get_mut(_raw): std hash_map::Entry and HashMap::get_mut have no vstd model (not under contract)",
+                                     "'leaves the world unchanged' on a mismatching call is decided as 'the call does not return' plus the guard being the first statement of every id-taking function (mode P cannot observe state at a panic)"]),
     "C10": dict(runs=[dict(unit=U1, groups=["fit", "wid"])], own_groups=["fit", "wid"], undecided_sentences=[]),
     "C04": dict(runs=[dict(unit=U1, groups=["once"])], own_groups=["once"], owns_shared=True,
                 undecided_sentences=["multiplicity on the parallel path rests on the assumed contract of rayon (rule R11: each closure called exactly once)"]),
